@@ -5,6 +5,7 @@ import (
 	"fmt"
 	"reflect"
 	"runtime"
+	"strings"
 	"sync"
 	"sync/atomic"
 	"testing"
@@ -104,6 +105,65 @@ func TestConcurrentGeneratedTypes(t *testing.T) {
 		evid.Sample(c)
 		if f != nil {
 			evid.Violation(rt, "ConcurrentGeneratedTypes", c, f)
+		}
+	})
+}
+
+// DistinctCase: in every round each of G goroutines first-uses a type of its own that no one has seen before
+// (same shape, different nonce), all released by one barrier: the copy-on-write codec caches take G racing
+// insertions of distinct keys per round. Each result must be what the same call returns alone afterwards.
+type DistinctCase struct {
+	Spec   TypeSpec `json:"spec"`
+	Op     string   `json:"op"`
+	G      int      `json:"g"`
+	Rounds int      `json:"rounds"`
+}
+
+func checkDistinctCase(c DistinctCase) *evid.Failure {
+	for r := 0; r < c.Rounds; r++ {
+		types := make([]reflect.Type, c.G)
+		for g := range types {
+			types[g] = materialise(c.Spec, nonce.Add(1)+int64(evid.Shard())*1_000_000_000)
+		}
+		res := make([]string, c.G)
+		var start, done sync.WaitGroup
+		start.Add(1)
+		for g := 0; g < c.G; g++ {
+			done.Add(1)
+			go func(g int) {
+				defer done.Done()
+				start.Wait()
+				res[g] = call(c.Op, types[g], g%10)
+			}(g)
+		}
+		start.Done()
+		done.Wait()
+		for g := range res {
+			if want := call(c.Op, types[g], g%10); strings.HasPrefix(res[g], "PANIC") || res[g] != want {
+				return &evid.Failure{Oracle: "each concurrent call returns exactly what it returns running alone", Observed: fmt.Sprintf("round %d goroutine %d %s on its own fresh type: %s", r, g, c.Op, trunc(res[g])), Expected: trunc(want), Class: "concurrent-result"}
+			}
+		}
+	}
+	return nil
+}
+
+func TestDistinctFirstUse(t *testing.T) {
+	evid.Check(t, "DistinctFirstUse", 30, func(rt *rapid.T) {
+		nf := rapid.IntRange(1, 6).Draw(rt, "nf")
+		ts := TypeSpec{Fresh: true, BigNums: rapid.IntRange(0, 3).Draw(rt, "bignums") == 0}
+		for j := 0; j < nf; j++ {
+			ts.Kinds = append(ts.Kinds, rapid.SampledFrom(kinds).Draw(rt, "kind"))
+		}
+		c := DistinctCase{Spec: ts, Op: rapid.SampledFrom(ops).Draw(rt, "op"), G: rapid.IntRange(8, 32).Draw(rt, "g"), Rounds: rapid.IntRange(4, 16).Draw(rt, "rounds")}
+		evid.Journal("DistinctFirstUse", c)
+		f := checkDistinctCase(c)
+		evid.Eval(1)
+		evid.Label("distinct-first-use.op." + c.Op)
+		evid.LabelN("distinct-first-use.racing-insertions", c.G*c.Rounds)
+		evid.NonTrivial(evid.HashS("distinct", fmt.Sprintf("%+v", c)))
+		evid.Sample(c)
+		if f != nil {
+			evid.Violation(rt, "DistinctFirstUse", c, f)
 		}
 	})
 }
